@@ -172,13 +172,19 @@ example :
     (∀ n ∈ s0.disk.names, n < 10) := by
   decide
 
-/-- the `repack` precondition failing (a source pack was obsoleted by another
-process) is a reload, as in `_restart_autopack` -/
+/-- a packer whose view is stale (its sources were already replaced by another
+packer) and that is asked to repack packs it no longer lists reloads instead
+(`_restart_autopack`); one whose copy is already made writes its pack, and the
+merge keeps both combined packs — nothing is lost -/
 example :
-    let s0 := Sys.init false ⟨[0, 1], packFiles false 0 ++ packFiles false 1, [], false⟩ (fun _ => []) 10
+    let s0 := Sys.init false ⟨[0, 1], packFiles false 0 ++ packFiles false 1, [], false⟩
+      (fun n => if n = 0 then [100] else if n = 1 then [101] else []) 10
     let sched : Schedule :=
-      [(0, .reload), (1, .reload), (0, .repack [0, 1]), (0, .save true), (0, .obsolete), (1, .repack [0, 1])]
-    ((exec s0 sched).procs 1).names = [11] := by
+      [(0, .reload), (1, .reload), (0, .repack [0, 1]), (0, .save true), (0, .obsolete),
+       (1, .repack [0, 1]), (1, .save true), (1, .obsolete), (1, .repack [0, 1])]
+    let s := exec s0 sched
+    s.disk.names = [11, 13] ∧ (s.procs 1).names = [11, 13] ∧ (∀ r ∈ [100, 101], r ∈ visible s) ∧
+    complete false s.disk = true := by
   decide
 
 end BreezyVerif.C05
